@@ -1026,3 +1026,23 @@ def samplers_numeric(mk):
             mk.same(f"{cls.__name__}: sampled string has non-zero probability", bool(probs[int(b, 2)] > 1e-12), True)
             if isinstance(s, tuple) and len(s) == 2 and not isinstance(s[1], str):
                 mk.eq(f"{cls.__name__}: reported probability == |amplitude|^2", s[1], probs[int(b, 2)], tol=1e-8)
+    # the dense-state based counter, in both qubit-order conventions, for every simulator class (the state is not
+    # symmetric under reversing the qubit order)
+    for cls in (qtn.Circuit, qtn.CircuitDense, qtn.CircuitMPS, qtn.CircuitPermMPS):
+        c = cls(N)
+        c.apply_gate("H", 0)
+        c.apply_gate("CX", 0, 1)
+        c.apply_gate("RY", 0.7, 2)
+        c.apply_gate("X", 2)
+        v = np.asarray(c.to_dense()).reshape(-1)
+        probs = np.abs(v) ** 2
+        vr = np.asarray(c.to_dense(reverse=True)).reshape(-1)
+        mk.eq(f"{cls.__name__}: to_dense(reverse=True) is the state with the qubit order reversed",
+              vr, v.reshape((2,) * N).transpose(tuple(reversed(range(N)))).reshape(-1))
+        for rev in (False, True):
+            counts = c.simulate_counts(60, seed=seed, reverse=rev)
+            mk.same(f"{cls.__name__}: simulate_counts(60, reverse={rev}) distributes exactly 60 counts", sum(counts.values()), 60)
+            for b, n in counts.items():
+                bb = b[::-1] if rev else b
+                mk.same(f"{cls.__name__}: simulate_counts(reverse={rev}) string (read in the requested convention) has non-zero probability",
+                        bool(n == 0 or probs[int(bb, 2)] > 1e-12), True)
